@@ -87,10 +87,11 @@ fn targets() -> Vec<Target> {
             out_sig: sig.to_string(),
             // generated handlers echo their arguments; fallible ones fail when their leading bool is set
             model: Box::new(move |a: &[Val]| {
+                // the handler logs a canonical rendering of what it received
                 if fallible && a.first() == Some(&Val::Bool(true)) {
-                    (String::new(), Expect::Error("org.freedesktop.DBus.Error.Failed"))
+                    (crate::corpus::canon_args(a), Expect::Error("org.freedesktop.DBus.Error.Failed"))
                 } else {
-                    (String::new(), Expect::Return(a.to_vec()))
+                    (crate::corpus::canon_args(a), Expect::Return(a.to_vec()))
                 }
             }),
             generated: true,
